@@ -43,6 +43,8 @@ def _run(args):
                 st.arrive(e["cls"], e["t"], e["id"])
             elif a == "Cut":
                 st.cut(e["kind"])
+            elif a == "Reconnect":
+                st.reconnect()
             elif a == "Sub":
                 st.sub(e["op"], e["t"])
             elif a == "Read":
@@ -70,6 +72,11 @@ def extra() -> List[List[dict]]:
     for kind in ("fin", "finmid", "finbody", "rst"):
         out.append([S("sub", 26), A("good", 26, 1), A("good", 26, 2), {"a": "Cut", "kind": kind}, R("pos"), R("pos"), R("pos"), R("zero")])
         out.append([S("sub", 26), {"a": "Cut", "kind": kind}, R("block"), R("pos")])
+    # the connection is lost, the same client object connects again: the subscriptions of the old connection are gone
+    for kind in ("fin", "rst"):
+        for old in ("sub", "suball"):
+            out.append([S(old, 26), A("good", 26, 1), {"a": "Cut", "kind": kind}, R("pos"), R("pos"), {"a": "Reconnect"}, S("sub", 34),
+                        A("good", 26, 2), A("good", 34, 3), A("good", 26, 4), A("good", 34, 5), R("pos"), R("pos"), R("pos"), R("zero")])
     # the last frame torn after its header, for every class whose header already tells (or does not tell) that it cannot be decoded
     for cls in ("good", "unknown", "wrongsize", "wrongboth", "wrongver", "zerover"):
         for sync in (False, True):
